@@ -10,12 +10,15 @@
      }
      if (!Ip[n] && n > 1) Lf.push_back(n);
 
-   The array is a set of marked indices; a read beyond the allocated size N0 + 1 is None (undefined behaviour in C++);
+   The array is a set of marked indices; a read beyond the allocated size N0 + 1 is None (undefined behaviour in C++), so is an overflow of the `int` variables;
    p = 0 never leaves the halving loop (None). *)
 From Coq Require Import ZArith List Bool FSets.FSetPositive.
 Import ListNotations.
 Local Open Scope Z_scope.
 
+(* the loop variables i, j, ii are `int`; the model is partial (None) wherever one of them would leave the int range, so that no
+   statement about erat_model speaks about inputs on which the C++ has undefined behaviour (the source: "Valid for p < BOUNDARY_factor") *)
+Definition INT_MAX : Z := 2147483647.
 Definition marks := PositiveSet.t.
 Definition marked (M : marks) (j : Z) : bool := if j <=? 0 then false else PositiveSet.mem (Z.to_pos j) M.
 Definition set_mark (M : marks) (j : Z) : marks := if j <=? 0 then M else PositiveSet.add (Z.to_pos j) M.
@@ -26,7 +29,9 @@ Fixpoint halve (fuel : nat) (n : Z) : option Z :=
 Fixpoint mark_loop (fuel : nat) (M : marks) (j ii n : Z) : option (marks * Z) :=
   match fuel with
   | O => None
-  | S f => if j <=? n then mark_loop f (set_mark M j) (j + ii) ii n else Some (M, j)
+  | S f => if j <=? n then (if INT_MAX <? j + ii then None            (* `int j`: j += ii would overflow - undefined behaviour *)
+                           else mark_loop f (set_mark M j) (j + ii) ii n)
+           else Some (M, j)
   end.
 (* do n /= i; while (!(n % i)); *)
 Fixpoint divide_out (fuel : nat) (n i : Z) : option Z :=
@@ -67,5 +72,6 @@ Definition erat_model (p : Z) : option (list Z) :=
   let even := negb (Z.odd p) in
   match (if even then halve (S (Z.to_nat p)) p else Some p) with
   | None => None
-  | Some n => let F := S (S (Z.to_nat n)) in erat_loop F F PositiveSet.empty n n 3 (if even then [2] else [])
+  | Some n => if INT_MAX - 1 <? n then None                             (* `(int)n + 1`, `new short[n + 1]`: outside int *)
+              else let F := S (S (Z.to_nat n)) in erat_loop F F PositiveSet.empty n n 3 (if even then [2] else [])
   end.
